@@ -25,10 +25,12 @@ let x86 (k_str : z -> z list -> z -> z -> bool -> bool -> z -> nat -> xres)
   let fuel = x_nat_of_z (z_of_int (200 + 8 * len)) in
   let page = 4096 in
   let places = [ 2 * page; 2 * page + 1; 3 * page - len; 3 * page - len - 3; 3 * page - 7; 2 * page + 4081 ] in
-  let results = ref [] in
-  List.iter (fun a ->
-    List.iter (fun junk ->
-      List.iter (fun (avx2, popcnt) ->
+  (* one result per CPU-feature combination (every placement, surrounding and entry point must agree on it);
+     printed as  a1p1=..;a0p1=..;a1p0=..;a0p0=..   (a = AVX2, p = POPCNT) *)
+  let one (avx2, popcnt) =
+    let results = ref [] in
+    List.iter (fun a ->
+      List.iter (fun junk ->
         List.iter (fun k ->
           let r = k (z_of_int a) s (z_of_int junk) (z_of_int 0x5eadbeefcafe) avx2 popcnt (z_of_int c) fuel in
           let str = match r with
@@ -37,14 +39,15 @@ let x86 (k_str : z -> z list -> z -> z -> bool -> bool -> z -> nat -> xres)
             | XDelegated -> "GO"      (* tail call into the Go fallback (no POPCNT): that code is modelled in Kernels.v *)
             | XDone None -> "NORESULT"
             | XDone (Some v) -> string_of_int (int_of_z v) in
-          if str <> "GO" && not (List.mem str !results) then results := str :: !results)
+          if not (List.mem str !results) then results := str :: !results)
           [k_str; k_byt])
-        [(true, true); (false, true); (true, false); (false, false)])
-      [0; 255; c])
-    places;
-  match !results with
-  | [r] -> r
-  | l -> "DIFF(" ^ String.concat "," (List.rev l) ^ ")"
+        [0; 255; c])
+      places;
+    match !results with
+    | [r] -> r
+    | l -> "DIFF(" ^ String.concat "," (List.rev l) ^ ")" in
+  String.concat ";" (List.map (fun (nm, fl) -> nm ^ "=" ^ one fl)
+    [("a1p1", (true, true)); ("a0p1", (false, true)); ("a1p0", (true, false)); ("a0p0", (false, false))])
 
 let impl (fn : string) (a : string array) : string option =
   let s i = bytes_of_hex a.(i) in
